@@ -442,3 +442,45 @@ mod tests {
         assert_eq!(binop(BinOp::Add, &b(1, 8), &b(1, 9)), Err(EvalErr::Sort));
     }
 }
+
+
+// ---------------------------------------------------------------- independent IL walkers
+
+/// the scalars an expression mentions, in order of appearance (own recursion over the variants; falcon's
+/// `Expression::scalars` is one of the things under test)
+pub fn expr_scalars(e: &Expression, out: &mut Vec<falcon::il::Scalar>) {
+    use Expression as E;
+    match e {
+        E::Scalar(s) => out.push(s.clone()),
+        E::Constant(_) => {}
+        E::Add(a, b) | E::Sub(a, b) | E::Mul(a, b) | E::Divu(a, b) | E::Modu(a, b) | E::Divs(a, b) | E::Mods(a, b) | E::And(a, b) | E::Or(a, b) | E::Xor(a, b)
+        | E::Shl(a, b) | E::Shr(a, b) | E::AShr(a, b) | E::Cmpeq(a, b) | E::Cmpneq(a, b) | E::Cmplts(a, b) | E::Cmpltu(a, b) => {
+            expr_scalars(a, out);
+            expr_scalars(b, out);
+        }
+        E::Zext(_, a) | E::Sext(_, a) | E::Trun(_, a) => expr_scalars(a, out),
+        E::Ite(c, t, f) => {
+            expr_scalars(c, out);
+            expr_scalars(t, out);
+            expr_scalars(f, out);
+        }
+    }
+}
+
+/// the scalars an operation reads (intrinsics: what they declare)
+pub fn op_reads(op: &falcon::il::Operation) -> Vec<falcon::il::Scalar> {
+    use falcon::il::Operation as O;
+    let mut out = Vec::new();
+    match op {
+        O::Assign { src, .. } => expr_scalars(src, &mut out),
+        O::Store { index, src } => {
+            expr_scalars(index, &mut out);
+            expr_scalars(src, &mut out);
+        }
+        O::Load { index, .. } => expr_scalars(index, &mut out),
+        O::Branch { target } => expr_scalars(target, &mut out),
+        O::Intrinsic { intrinsic } => out.extend(intrinsic.scalars_read().unwrap_or_default().into_iter().cloned()),
+        O::Nop { .. } => {}
+    }
+    out
+}
